@@ -24,6 +24,15 @@ CHECKS = {
             "creation on is additionally produced by a forked child that re-runs the transaction and dies with os._exit(137) there.",
             "Power-loss semantics (unsynced page cache, reordered metadata) are outside the statement ('the writing process dies') and not modelled. Exhaustive over boundaries per generated transaction, not over transactions. Byte-identical survivors are judged once (the oracle is a function of the directory content).",
             "DESIGN.md section 2 C02"),
+    "C03": ("exploration",
+            "property-based testing (Hypothesis) of generated reader/writer schedules: a storage wrapper hands control to the harness at every storage-operation boundary of the writer, where generated reader actions run (deterministic interleaving at I/O granularity); snapshot/refresh oracle against reference states",
+            "schedule: generated histories (2-5 transactions after 0-10 single-document commits; adds, updates, deletes, merge=False/default/optimize, cancel) on directory (+/- mmap) and RAM "
+            "indexes with compound or loose files; reader actions open / probe / refresh / up_to_date / close / split-open placed at fractions of a transaction's boundaries or at fixed "
+            "distances around the TOC rename. A held searcher's full probe (stored fields, lexicon, postings, lengths, vectors, columns, scored and sorted searches) must never change; a "
+            "searcher opened, refreshed or split-opened (whoosh's own FileIndex.reader() loop with its first TOC read answered by an earlier TOC) at boundary j must equal the reference "
+            "state of the last TOC rename before j; up_to_date() must equal (generation is latest).",
+            "Preemption between two non-I/O steps of a reader is not explored (readers share only the storage with writers). Real threads/processes are not used: the schedule is owned by the harness, so every run is a function of the seed.",
+            "DESIGN.md section 2 C03"),
     "C05": ("exploration",
             "property-based testing (Hypothesis): differential search(limit=k) vs prefix of search(limit=None) on generated multi-block corpora, with engagement of block skipping measured",
             "Generated corpora with long posting lists (block limit 1-8, 1-4 segments, deletions), generated scored query trees and weighting models; for k in {1,2,3,5,10,|hits|-1} "
